@@ -76,9 +76,12 @@ func corpusJobs() []job {
 	}
 	vars := func(kv ...string) func(*c02Case) { return func(cs *c02Case) { *cs = cs.withVars(kv...) } }
 	chars := func(cs *c02Case) { cs.Chars = true }
-	// witness of G02-1 (CSV/TSV input mode: getline replaces p.fields without p.fieldsIsTrueStr; root cause of F13)
-	add(expAny, `BEGIN { x = NF; getline y < "DIR/data.txt"; $1 = "z" }`, func(cs *c02Case) { cs.InMode = 2 })
-	add(expAny, `BEGIN { x = $1; getline y < "DIR/data.txt"; print $1 }`, func(cs *c02Case) { cs.InMode = 1 })
+	// regression witnesses of the repaired G02-1 (CSV/TSV input mode: getline used to replace p.fields behind p.fieldsIsTrueStr
+	// and the next field access panicked; fixed with F13 in c7bccbd): must run cleanly now
+	add(expNoErr, `BEGIN { x = NF; getline y < "DIR/data.txt"; $1 = "z" }`, func(cs *c02Case) { cs.InMode = 2 })
+	add(expNoErr, `BEGIN { x = $1; getline y < "DIR/data.txt"; print $1 }`, func(cs *c02Case) { cs.InMode = 1 })
+	add(expNoErr, `{ x = NF; getline y < "DIR/data.txt"; getline $2 < "DIR/data.txt"; "echo q" | getline z; $1 = "z"; print $1, $NF, NF }`, func(cs *c02Case) { cs.InMode = 1 })
+	add(expNoErr, `NR == 1 { n = NF; getline y; print $n; $n = 1 }`, func(cs *c02Case) { cs.InMode = 2 })
 	// witnesses of the fixed findings F03 (RS a single non-UTF-8 byte) and F04 ($(huge) = …)
 	add(expNoErr, `BEGIN { RS = "\xff" } { n++ } END { print n }`)
 	add(expNoErr, `{ n++ } END { print n }`, vars("RS", "\xff"))
